@@ -487,7 +487,7 @@ Lemma cur_flush0 c s : cur s = 0%nat ->
 Proof.
   intro H. pose proof (np_flush fixed c s) as N. unfold np in *. rewrite players_flush in N.
   revert N. flush_cases; simpl; intro N; try lia;
-    match goal with E : players s ++ _ = _ :: _ |- _ => rewrite E in N; simpl in N end; lia.
+    match goal with E : fix_first fixed = false |- _ => discriminate E end.
 Qed.
 
 Lemma misc_flush v c s : xb (flush v c s) = xb s /\ active (flush v c s) = active s /\
@@ -497,8 +497,7 @@ Proof. flush_cases; simpl; auto. Qed.
 Lemma pev_flush v c s : pev (flush v c s) = true -> pev s = true \/ (1 <= np (flush v c s))%nat.
 Proof.
   pose proof (np_flush v c s) as N. unfold np in *. rewrite players_flush in N. revert N.
-  flush_cases; simpl; intros N Hp; try (left; exact Hp);
-    right; match goal with E : players s ++ _ = _ :: _ |- _ => rewrite E in N; simpl in N end; lia.
+  flush_cases; simpl; intros N Hp; try (left; exact Hp); right; simpl; lia.
 Qed.
 
 Lemma pending_flush v c s : pending (flush v c s) = 0%nat.
@@ -564,32 +563,38 @@ Proof.
   - repeat split; auto; lia.
 Qed.
 
+Lemma pev_upd_cur f s : pev (upd_cur f s) = pev s.
+Proof. unfold upd_cur. destruct (cur s); reflexivity. Qed.
+
 Lemma Inv_set_pc k s :
   (cur s <= np s)%nat -> (in_turn (AtEv k) = true -> (1 <= cur s)%nat) ->
-  (k = GSd -> ending s = true \/ (1 <= np s)%nat) -> active s = true -> Inv (set_pc (AtEv k) s).
+  (k = GSd -> ending s = true \/ (1 <= np s)%nat) -> active s = true ->
+  (pev s = true -> (1 <= np s)%nat) -> Inv (set_pc (AtEv k) s).
 Proof.
-  intros H1 H2 H3 H4. unfold Inv. simpl. repeat split; auto. intro E. apply H3. congruence.
+  intros H1 H2 H3 H4 H5. unfold Inv. simpl. repeat split; auto. intro E. apply H3. congruence.
 Qed.
 
 Ltac inv_simple := apply Inv_set_pc; simpl; auto; try discriminate; try lia.
 
 Lemma loop_head_g s : (cur s <= np s)%nat -> active s = true -> (ending s = true \/ (1 <= np s)%nat) ->
+  (pev s = true -> (1 <= np s)%nat) ->
   exists g', mrun gstep GL (snd (loop_head s)) = Some g' /\ Rg (fst (loop_head s)) g'.
 Proof.
-  intros I1 I4 HE. unfold loop_head. destruct (ending s) eqn:En.
+  intros I1 I4 HE I5. unfold loop_head. destruct (ending s) eqn:En.
   - eapply goto_g; [reflexivity | reflexivity | inv_simple].
   - destruct HE as [HE|HE]; [discriminate|].
     destruct (cur s =? 0)%nat eqn:C0.
     + destruct (rotate_facts s HE) as ([R1 R2] & R3 & R4 & R5 & R6).
       eapply goto_g.
-      * unfold ev_of. cbn [gstep]. apply Nat.leb_le in R1. rewrite R1. reflexivity.
+      * unfold ev_of. cbn [gstep is_game_kind]. apply Nat.leb_le in R1. rewrite R1. reflexivity.
       * reflexivity.
-      * apply Inv_set_pc; try discriminate; try lia. congruence.
+      * apply Inv_set_pc; try discriminate; try lia; first [congruence | exact I5 | rewrite R3; exact I5 | idtac].
+        all: try (rewrite R3; exact I5). all: try congruence.
     + apply Nat.eqb_neq in C0. eapply goto_g.
-      * unfold ev_of. cbn [gstep]. assert (L : (1 <=? cur s)%nat = true) by (apply Nat.leb_le; lia).
+      * unfold ev_of. cbn [gstep is_game_kind]. assert (L : (1 <=? cur s)%nat = true) by (apply Nat.leb_le; lia).
         rewrite L. reflexivity.
       * reflexivity.
-      * apply Inv_set_pc; try discriminate; try lia. assumption.
+      * apply Inv_set_pc; try discriminate; try lia; assumption.
 Qed.
 
 Ltac norm_pball :=
@@ -606,31 +611,41 @@ Ltac norm_pball :=
 Lemma Rg_adv c s g : Rg s g -> enabled fixed s ->
   exists g', mrun gstep g (snd (advance fixed c s)) = Some g' /\ Rg (fst (advance fixed c s)) g'.
 Proof.
-  intros [-> HI] En. pose proof HI as (I1 & I2 & I3 & I4).
+  intros [-> HI] En. pose proof HI as (I1 & I2 & I3 & I4 & I5).
   unfold advance, g_of. unfold enabled in En.
   destruct (pc s) as [[]| | |] eqn:Epc; cbn [in_turn is_done negb] in *;
     try specialize (I2 eq_refl).
   - (* GWS *) eapply goto_g; [reflexivity|reflexivity|inv_simple].
   - (* GSg *)
     destruct (0 <? np s)%nat eqn:N0.
-    + apply Nat.ltb_lt in N0. eapply goto_g; [reflexivity|reflexivity|inv_simple].
-    + destruct (gate fixed c s && own_ok c).
-      * replace (fix_wait fixed && ending (add_first_player s) || (0 <? np (add_first_player s))%nat) with true
-          by (unfold np; simpl; rewrite orb_true_r; reflexivity).
-        eapply goto_g; [reflexivity|reflexivity|].
-        apply Inv_set_pc; simpl; auto; try discriminate.
-      * destruct (fix_wait fixed && ending s || (0 <? np s)%nat) eqn:W.
-        -- eapply goto_g; [reflexivity|reflexivity|].
-           apply Inv_set_pc; auto; try discriminate. intros _.
-           rewrite N0 in W. simpl in W. rewrite orb_false_r in W. left; exact W.
-        -- exists G2. split; [reflexivity|]. split; [reflexivity|].
-           unfold Inv; simpl. repeat split; auto; discriminate.
+    + apply Nat.ltb_lt in N0. eapply goto_g; [reflexivity|reflexivity|].
+      apply Inv_set_pc; simpl; auto; try discriminate.
+    + apply Nat.ltb_ge in N0. assert (Z : np s = 0%nat) by lia. assert (Zc : cur s = 0%nat) by lia.
+      assert (WP : forall x, x = set_pev false s \/ x = set_heldq (heldq s ++ [1%nat]) (set_players [(0%nat, 0%nat)] (set_pev false s)) ->
+                 exists g', mrun gstep G2 (snd (if fix_wait fixed && ending x || pev x then goto GSd x else (set_pc WaitPlayer x, []))) = Some g' /\
+                            Rg (fst (if fix_wait fixed && ending x || pev x then goto GSd x else (set_pc WaitPlayer x, []))) g').
+      { intros x Hx.
+        assert (Ex : ending x = ending s /\ pev x = false /\ cur x = 0%nat /\ active x = true /\ pc x = pc s).
+        { destruct Hx as [-> | ->]; simpl; auto. }
+        destruct Ex as (E1 & E2 & E3 & E4 & E5). rewrite E1, E2. cbn [fix_wait fixed andb]. rewrite orb_false_r.
+        destruct (ending s) eqn:En0.
+        - eapply goto_g; [reflexivity|reflexivity|].
+          apply Inv_set_pc; try discriminate; try lia; [left; congruence | exact E4 | rewrite E2; discriminate].
+        - exists G2. split; [reflexivity|]. split; [reflexivity|].
+          unfold Inv. simpl. rewrite E3, E4, E2. repeat split; auto; try lia; discriminate. }
+      destruct (gate fixed c (set_pev false s) && own_ok c).
+      * unfold add_first_player. destruct (hold_adds c).
+        -- apply WP. right. reflexivity.
+        -- replace (fix_wait fixed && _ || _) with true by (simpl; rewrite orb_true_r; reflexivity).
+           eapply goto_g; [reflexivity|reflexivity|].
+           apply Inv_set_pc; simpl; auto; try discriminate.
+      * apply WP. left. reflexivity.
   - (* GSd *) apply loop_head_g; auto.
   - (* GWE *) eapply goto_g; [reflexivity|reflexivity|inv_simple].
   - (* GEg *) eapply goto_g; [reflexivity|reflexivity|inv_simple].
   - (* GEd *) exists EF. split; [reflexivity|]. split; [reflexivity|].
     unfold Inv; simpl. repeat split; auto; discriminate.
-  - (* PTWS *) eapply goto_g; [unfold ev_of; cbn [gstep]; rewrite same_refl; reflexivity | reflexivity | inv_simple].
+  - (* PTWS *) eapply goto_g; [unfold ev_of; cbn [gstep is_game_kind]; rewrite same_refl; reflexivity | reflexivity | inv_simple].
   - (* PTSg *)
     destruct (inc_facts s (conj I2 I1)) as (F1 & F2 & F3 & F4 & F5 & F6 & F7 & F8).
     eapply goto_g.
@@ -640,19 +655,21 @@ Proof.
       * change (cur (set_tactive true ?x)) with (cur x). change (np (set_tactive true ?x)) with (np x). lia.
       * intros _. change (cur (set_tactive true ?x)) with (cur x). lia.
       * change (active (set_tactive true ?x)) with (active x). congruence.
+      * change (pev (set_tactive true ?x)) with (pev x). change (np (set_tactive true ?x)) with (np x).
+        rewrite pev_upd_cur, F3. exact I5.
   - (* PTSd *) unfold run_ball. eapply goto_g.
     + unfold ev_of. simpl. rewrite same_refl. reflexivity.
     + reflexivity.
     + inv_simple.
-  - (* PTWE *) eapply goto_g; [unfold ev_of; cbn [gstep]; rewrite same_refl; reflexivity | reflexivity | inv_simple].
-  - (* PTEg *) eapply goto_g; [unfold ev_of; cbn [gstep]; rewrite same_refl; reflexivity | reflexivity | inv_simple].
+  - (* PTWE *) eapply goto_g; [unfold ev_of; cbn [gstep is_game_kind]; rewrite same_refl; reflexivity | reflexivity | inv_simple].
+  - (* PTEg *) eapply goto_g; [unfold ev_of; cbn [gstep is_game_kind]; rewrite same_refl; reflexivity | reflexivity | inv_simple].
   - (* PTEd *) unfold after_turn.
     assert (NP : (1 <= np s)%nat) by lia.
     destruct (slam (set_tactive false s) || _).
     + apply loop_head_g; simpl; auto.
     + destruct (rotate_facts (set_tactive false s) NP) as ([R1 R2] & R3 & R4 & R5 & R6).
-      apply loop_head_g; [lia | rewrite R5; exact I4 | right; rewrite R3; exact NP].
-  - (* BWS *) eapply goto_g; [unfold ev_of; cbn [gstep]; rewrite same_refl, eqb_reflx; reflexivity | reflexivity | inv_simple].
+      apply loop_head_g; [lia | rewrite R5; exact I4 | right; rewrite R3; exact NP | intros _; rewrite R3; exact NP].
+  - (* BWS *) eapply goto_g; [unfold ev_of; cbn [gstep is_game_kind]; rewrite same_refl, eqb_reflx; reflexivity | reflexivity | inv_simple].
   - (* BSg *)
     destruct (set_bip_form c 1 (set_drainh true s)) as [b [e ->]].
     eapply goto_g; [unfold ev_of; simpl; rewrite same_refl, eqb_reflx; reflexivity | reflexivity | inv_simple].
@@ -660,8 +677,8 @@ Proof.
     + unfold end_ball. eapply goto_g; [unfold ev_of; simpl; rewrite same_refl; reflexivity | reflexivity | inv_simple].
     + exists (B3 (cur s) (pball s)). split; [reflexivity|]. split; [reflexivity|].
       unfold Inv; simpl. repeat split; auto; discriminate.
-  - (* BWE *) eapply goto_g; [unfold ev_of; cbn [gstep]; rewrite same_refl; reflexivity | reflexivity | inv_simple].
-  - (* BEg *) eapply goto_g; [unfold ev_of; cbn [gstep]; rewrite same_refl; reflexivity | reflexivity | inv_simple].
+  - (* BWE *) eapply goto_g; [unfold ev_of; cbn [gstep is_game_kind]; rewrite same_refl; reflexivity | reflexivity | inv_simple].
+  - (* BEg *) eapply goto_g; [unfold ev_of; cbn [gstep is_game_kind]; rewrite same_refl; reflexivity | reflexivity | inv_simple].
   - (* BEd *) destruct ((0 <? pextra s)%nat && negb (slam s)).
     + destruct (dec_facts s) as (F1 & F2 & F3 & F4 & F5 & F6). unfold run_ball.
       eapply goto_g.
@@ -674,13 +691,15 @@ Proof.
            change (np (set_xb true (set_endev false ?x))) with (np x). lia.
         -- intros _. change (cur (set_xb true (set_endev false ?x))) with (cur x). lia.
         -- change (active (set_xb true (set_endev false ?x))) with (active x). congruence.
-    + eapply goto_g; [unfold ev_of; cbn [gstep]; rewrite same_refl; reflexivity | reflexivity | inv_simple].
+        -- change (pev (set_xb true (set_endev false ?x))) with (pev x).
+           change (np (set_xb true (set_endev false ?x))) with (np x). rewrite pev_upd_cur, F3. exact I5.
+    + eapply goto_g; [unfold ev_of; cbn [gstep is_game_kind]; rewrite same_refl; reflexivity | reflexivity | inv_simple].
   - (* WaitBall *) unfold await_end. rewrite En.
     unfold end_ball. eapply goto_g; [unfold ev_of; simpl; rewrite same_refl; reflexivity | reflexivity | inv_simple].
   - (* WaitPlayer *) eapply goto_g; [reflexivity|reflexivity|].
     apply Inv_set_pc; auto; try discriminate.
     intros _. unfold wait_player_ready in En. simpl in En.
-    apply orb_true_iff in En as [En|En]; [left; exact En | right; apply Nat.ltb_lt in En; exact En].
+    apply orb_true_iff in En as [En|En]; [left; exact En | right; apply I5; exact En].
   - (* Done *) exists EF. split; [reflexivity|]. unfold Rg, g_of. cbn [fst]. rewrite Epc. split; [reflexivity | exact HI].
 Qed.
 
@@ -695,8 +714,8 @@ Proof.
   - intros s g o [-> HI]. pose proof (Keep_apply_op fixed c s o) as K.
     exists (g_of s). split.
     + destruct o; reflexivity.
-    + split; [symmetry; apply g_of_Keep; exact K | eapply Inv_Keep; eassumption].
-  - apply Rg_flush.
+    + split; [symmetry; apply g_of_Keep; exact K | eapply Inv_Keep; [exact K | apply pev_apply_op | exact HI]].
+  - intros; apply Rg_flush; assumption.
   - intros; apply Rg_adv; assumption.
   - intros s g H. exists g. split; [reflexivity | exact H].
   - apply Rg_init.
@@ -747,7 +766,7 @@ Lemma ended_implies_no_game_l : forall c ins,
   (pc (final c ins) = Done ->
    forall more, trace c (ins ++ more) = trace c ins /\ final c (ins ++ more) = final c ins).
 Proof.
-  intros c ins. destruct (grammar_steps c ins) as [g [E [Hg (I1 & I2 & I3 & I4)]]].
+  intros c ins. destruct (grammar_steps c ins) as [g [E [Hg (I1 & I2 & I3 & I4 & I5)]]].
   fold (final c ins) in *. split; [|split].
   - rewrite I4. destruct (pc (final c ins)); cbn; split; intro; congruence.
   - pose proof (fin_EF _ _ _ E) as F. unfold trace, out0. cbn [app In]. split.
@@ -769,7 +788,7 @@ Definition add_in_handler : input := mkin [AddPlayerReq true] [] [Drain 1].
 (* one player, two balls per game; a start-button press while player_turn_will_start of player 1's second turn is
    being handled (input #16) is accepted because player.ball is still 1: player 2 joins in round 2 and player 1
    goes on to play ball 3 of a 2-ball game *)
-Definition late_add_cfg : cfg := mkcfg 2 2 1 true.
+Definition late_add_cfg : cfg := mkcfg 2 2 1 true false.
 Definition late_add_ins : list input := repeat calm 16 ++ [add_in_handler] ++ repeat calm 60.
 
 Definition turn_ball_exceeds (c : cfg) (o : out) : bool :=
@@ -784,7 +803,7 @@ Proof. vm_compute. reflexivity. Qed.
 
 (* end_game while game_starting is handled, before the first player exists: the unfixed coroutine waits for a
    player that can never be added (request_player_add refuses because the game is ending) *)
-Definition hang_cfg : cfg := mkcfg 3 4 3 true.
+Definition hang_cfg : cfg := mkcfg 3 4 3 true false.
 Definition hang_ins : list input := [calm; mkin [EndGame] [] []].
 Definition retry : input := mkin [] [] [AddPlayerReq true; EndGame; EndBall; Drain 1].
 
@@ -795,12 +814,12 @@ Lemma game_hangs_refuted_unfixed_l :
 Proof.
   exists hang_cfg, hang_ins. intro n. cbv zeta. rewrite steps_app.
   destruct (steps_g unfixed hang_cfg init hang_ins) as [s1 o1] eqn:E1.
-  assert (H : s1 = mkst WaitPlayer [] 0%nat 0 true true false false false 0%nat false true)
+  assert (H : s1 = mkst WaitPlayer [] 0%nat 0 true true false false false 0%nat [] [] false false true)
     by (vm_compute in E1; congruence).
   subst s1. clear E1. induction n as [|n IH].
   - cbn. split; reflexivity.
   - cbn [repeat steps_g]. replace (step_g unfixed hang_cfg _ retry) with
-      (mkst WaitPlayer [] 0%nat 0 true true false false false 0%nat false true,
+      (mkst WaitPlayer [] 0%nat 0 true true false false false 0%nat [] [] false false true,
        [Idle 0 0%nat]) by (vm_compute; reflexivity).
     destruct (steps_g unfixed hang_cfg _ (repeat retry n)) as [s2 o2]. cbn [fst snd] in *. exact IH.
 Qed.
